@@ -59,7 +59,7 @@ SEQ = {
     'C11': dict(models=['MC_forest', 'MC_alloc'], weights={}, read_after_write=True,
                 scenarios=['reshape_moves_class', 'consumer_lifecycle',
                            'drop_class_in_use', 'names_lifecycle',
-                           'subtree_moves', 'joint_overflow', 'f7_empty_write_unknown_consumer',
+                           'subtree_moves', 'joint_overflow', 'usage_views', 'f7_empty_write_unknown_consumer',
                            'f9_unknown_provider_new_consumer'],
                 replay=dict(quick=(4, 30, 2), thorough=(40, 60, 12)),
                 quick=(48, 35), thorough=(1500, 50)),
@@ -606,8 +606,10 @@ def run_cand(prop, tier, seed, model=True):
     if prop in ('C03', 'C02'):
         allf = list(range(cand.family_size()))
         if tier == 'quick':
-            rnd.shuffle(allf)
-            allf = allf[:18] if prop == 'C03' else allf[:6]
+            a, b = allf[:36], allf[36:]
+            rnd.shuffle(a)
+            rnd.shuffle(b)
+            allf = a[:14] + b[:10] if prop == 'C03' else a[:4] + b[:3]
         fam = allf
     for w in range(nw):
         ss = seeds[w::nw]
